@@ -61,7 +61,15 @@ func Harness_C14_DocumentRoundTrip() {
 		doc["name"] = verifrt.AnyAtom("name")
 	}
 	if nm > 1 {
-		doc["extra"] = map[string]interface{}{"nested": []interface{}{verifrt.AnyAtom("nested"), true}}
+		doc["extra"] = map[string]interface{}{"nested": []interface{}{verifrt.AnyAtom("nested"), true, nil}}
+		switch verifrt.Choose("odd-member-value", 4) { // further members are arbitrary JSON: null, false, empty containers
+		case 1:
+			doc["note"] = nil
+		case 2:
+			doc["flag"] = false
+		case 3:
+			doc["empty"] = []interface{}{}
+		}
 	}
 	verifrt.Assume(len(doc) > 0)
 	withID := verifrt.Choose("with-id", 2) == 1
@@ -121,7 +129,11 @@ func Harness_C14_ConstructorsAndBytes() {
 		p, err = patch.NewReplacePatch(mustJSON(rd))
 		wantAction, wantValue = patch.Replace, rd
 	case 7:
-		ops := []interface{}{map[string]interface{}{"op": "add", "path": "/name", "value": verifrt.AnyAtom("v")}}
+		var val interface{} = verifrt.AnyAtom("v")
+		if verifrt.Choose("json-patch-value", 3) == 1 {
+			val = nil
+		}
+		ops := []interface{}{map[string]interface{}{"op": "add", "path": "/name", "value": val}}
 		p, err = patch.NewJSONPatch(mustJSON(ops))
 		wantAction, wantValue = patch.JSONPatch, ops
 	}
